@@ -1,5 +1,5 @@
 # configuration of ./check for property C14 (see props_config.py)
-CONFIG = {'gen': [],
+CONFIG = {'gen': ['ConstsC14'],
  'rule': 'cases = (a) whole credentials: NewKeyCredential -> ToBytes -> CheckIntegrity -> FromBytes -> CheckIntegrity -> ToBytes for '
          'moduli of 1..256 random bytes and products of two real primes (64/512/1024 bits; thorough: 2048/3072/4096), with and without '
          'prime entries, exponents 3/65537/near 2^32/random, versions 0/0x100/0x200 and random values, identifiers = ComputeKeyIdentifier '
@@ -10,7 +10,9 @@ CONFIG = {'gen': [],
          'recomputed hash, verdict, re-serialisation: model tie); (d) parts: identifiers hex/base64 both directions incl. '
          'padding/whitespace/wrong alphabet, RSAKeyMaterial layout/round trip/every truncation/size-field corruption, CustomKeyInformation '
          "of every length 0..26, version, DN-with-binary format/parse/round trip with ':' ',' '=' non-ASCII and invalid UTF-8 and damaged "
-         'size/hex parts; distinct = distinct input line; non-trivial = implementation output is a non-empty value In half of the single-bit corruption cases the parser object has already parsed the genuine blob and computed/checked its hash before it parses the corrupted one.',
+         'size/hex parts; distinct = distinct input line; non-trivial = implementation output is a non-empty value In half of the '
+         'single-bit corruption cases the parser object has already parsed the genuine blob and computed/checked its hash before it parses '
+         'the corrupted one.',
  'assumptions': ['SHA-256 is an arbitrary function H in every theorem; the round-trip clauses assume only that digests are 32 bytes; '
                  "'tampering detected' is proved as: an accepted alteration exhibits a collision of H, or a message containing its own "
                  'digest',
@@ -22,7 +24,11 @@ CONFIG = {'gen': [],
  'trusted': ['Go crypto/sha256 (evaluates H for the driver through the table argument; never re-implemented)'],
  'technique': 'Lean 4 proof (induction over byte lists and over the entry walk; kernel-only bit extensionality for the fixed-width fields) '
               'about a hand model of the patched code; model tied to the Go code by differential correspondence on every field; MS-ADTS '
-              'grammar as spec oracle on the same inputs',
+              'grammar as spec oracle on the same inputs; constants regenerated from the source on every run by a go/ast fact extractor '
+              '(Gen/ConstsC14: entry type codes 1..9, version constants 0/0x100/0x200, the RSA1 magic and 24-byte header offsets, exponent '
+              'width and shift, the CustomKeyInformation ladder 2/3/4/5/9/19 with its field positions, the 4-byte version and 3-byte entry '
+              'header, minimum entry lengths 16/8/8) and proved equal to the ones the model uses by rfl/decide (10 theorems '
+              'consts_match_model_*)',
  'level_text': 'Theorems serialise_is_msadts_grammar, blob_roundtrip, reserialise_same_bytes, fresh_passes_integrity (all versions, '
                'identifiers, moduli, exponents, prime lengths, GUIDs and ticks within Fits; H arbitrary with 32-byte digests), '
                'tamper_detected_or_collision, tamper_detected_or_collision_or_selfcontained, '
@@ -32,7 +38,13 @@ CONFIG = {'gen': [],
                'C07 repairs no decoder of the model can panic (parse_total, integrity_total, new_total), so the tampering clause holds at '
                'full strength: bitflip_rejected_or_collision (every single-bit corruption of the covered entries makes FromBytes return an '
                'error or CheckIntegrity return false, or exhibits a collision / self-containing digest of H); parse_rejects_* are the '
-               'former crash inputs, now errors; the model is tied to the code by running both on the same generated inputs on every run.',
- 'level_note': 'Trusted: Lean kernel; axioms propext, Classical.choice, Quot.sound; the hand model is tied to the Go code only by '
-               'differential testing (bounded); stdlib semantics as modelled; SHA-256 idealised as an arbitrary function (collision / '
+               'former crash inputs, now errors; the model is tied to the code by running both on the same generated inputs on every run. '
+               'Constants tie: 10 theorems consts_match_model_* restate the model functions with the numbers regenerated from the current '
+               'source (entry type codes 1..9, version constants 0/0x100/0x200, the RSA1 magic and 24-byte header offsets, exponent width '
+               'and shift, the CustomKeyInformation ladder 2/3/4/5/9/19 with its field positions, the 4-byte version and 3-byte entry '
+               'header, minimum entry lengths 16/8/8) in place of their literals; a changed constant in the source makes the theorem named '
+               'after the function fail.',
+ 'level_note': 'Trusted: Lean kernel; axioms propext, Classical.choice, Quot.sound; the hand model is tied to the Go code by differential '
+               'testing and, for the constants covered by consts_match_model_*, by regeneration from the source (control flow: '
+               'differential testing only, bounded); stdlib semantics as modelled; SHA-256 idealised as an arbitrary function (collision / '
                "self-containing-digest resistance is what 'detects tampering' reduces to)."}
